@@ -68,7 +68,7 @@ def gen(rng, tier):
     for kind, keys in NUMERIC.items():
         for key in keys:
             for v in txgen.BOUNDARY + [rng.randrange(2 ** 256) for _ in range(3)]:
-                group = (kind, key, v)
+                group = (kind, key, v, rng.getrandbits(48))  # unique per generator round
                 # one base document per group: only the spelling of the field under test varies
                 j, _ = txgen.rand_tx(rng, kind=kind, chain=1, spellings=["dec-str", "hex-str"], data_len=0, al_shape=[], to="addr")
                 if kind == "legacy" and key == "chainId" and v > (2 ** 256 - 37) // 2:
